@@ -124,6 +124,10 @@ func init() {
 			i.callMethod(w, "WriteHeader", 404)
 			return nil
 		},
+		vrt + "YieldOnRead": func(fr *frame, a []value) value {
+			fr.i.world.yieldOnRead = a[1].(bool)
+			return nil
+		},
 		// Served(addr): the handler of the server listening on addr (engine only)
 		vrt + "Served": func(fr *frame, a []value) value {
 			addr, _ := a[1].(string)
